@@ -68,7 +68,7 @@ def msg_class(m, frag_on):
 
 
 def terminal_losses(air):
-    """transmission episodes (same sender, PID, payload, address) of which no attempt was received by anybody"""
+    """transmission episodes (same sender, PID, payload, address) that were never taken by a receiver or never acknowledged"""
     eps = {}
     order = []
     for e in air:
@@ -76,11 +76,16 @@ def terminal_losses(air):
             continue
         k = (e["src"], e["pid"], e["pl"], e["addr"])
         if k not in eps:
-            eps[k] = False
+            eps[k] = [False, False]
             order.append(k)
         if e["rx"]:
-            eps[k] = True  # (an ACK heard by the sender does not count: ACKs carry only address + PID and can be another node's)
-    return [k for k in order if not eps[k]]
+            eps[k][0] = True  # taken by a receiver (an ACK heard by the sender alone does not count: ACKs carry only
+            #                   address + PID and can be another node's)
+        if e["acked"]:
+            eps[k][1] = True  # acknowledged at the sender
+    # on a loss-free medium every episode is both taken and acknowledged unless the receiver was transmitting, locked
+    # on an overlapping packet, or left RX mode inside the 130 us ACK turn-around
+    return [k for k in order if not (eps[k][0] and eps[k][1])]
 
 
 def run_case(case):
